@@ -40,6 +40,11 @@ afterwards), 400-1500 seeds each, "caught" = at least one run ends in a violatio
   C22 copier.py  basename of a source with trailing slash taken without rstrip('/') ...... caught (missing_file)
   C22 copier.py  _copy_file stops at the first read shorter than BUFFER_SIZE .............. caught (length_differs/single_part)
   C22 local_fs   LocalMultiPartCreate.create_part without seek(start) .................... caught (length_differs/multi_part)
+  C22 local_fs   makedirs(exist_ok=True) skips directories it created before (never invalidated; seeded change C22-5)
+                 ................................................................................ caught (unexpected_exception/
+                 FileNotFoundError, wrong_exception/FileNotFoundError) in the second or third copy of a history, after the
+                 directory an earlier copy created was removed (rmtree / rmdir of the same object, shutil / os); missed
+                 while every run was a single copy on a fresh file system object
   C22 utils.py   retry gives up after the second transient error ......................... caught (transient_error_not_retried)
   C22 utils.py   EPIPE no longer retryable ............................................... caught (transient_error_not_retried)
   C22 utils.py   ETIMEDOUT no longer in RETRYABLE_ERRNOS ................................. not caught: equivalent on Python 3.12
